@@ -85,6 +85,23 @@ def psubst(p, atom_id, q):
     return out
 
 
+def psubst_all(p, atom_id, q):
+    """p with atom replaced by q at any positive power (q a constant 0/1 here)."""
+    out = Poly()
+    for mono, c in p.m.items():
+        d = dict(mono)
+        if atom_id in d:
+            pw = d[atom_id]
+            rest = tuple((a, w) for a, w in mono if a != atom_id)
+            term = Poly({rest: c})
+            for _ in range(abs(pw)):
+                term = pmul(term, q)
+            out = padd(out, term)
+        else:
+            out = padd(out, Poly({mono: c}))
+    return out
+
+
 class Prover(object):
     def __init__(self, A, base_nonneg, max_depth=14):
         self.A = A
@@ -117,13 +134,16 @@ class Prover(object):
             return False
         if not (isinstance(ck, tuple) and ck and ck[0] == "le0"):
             return False
-        px = Poly(dict(ck[1]))           # cond is x - 0 <= 0  => key of x
+        px = self.A.poly_of_pid(ck[1])   # cond is x - 0 <= 0  => x
         A = self.A
         s = padd(px, A.inv(px))
         want = pmul(padd(s, const(-1)), A.inv(s))
         return want == pb
 
     def upper_bounds(self, atom, facts):
+        if atom.kind == "ind":
+            self.used_rules.add("R2")
+            return [const(1)]
         if atom.kind == "min":
             self.used_rules.add("R1")
             return [atom.parts[0], atom.parts[1]]
@@ -151,7 +171,7 @@ class Prover(object):
             return self.nonneg(atom.parts[0], facts, depth + 1) and self.nonneg(atom.parts[1], facts, depth + 1)
         if k == "max":
             return self.nonneg(atom.parts[0], facts, depth + 1) or self.nonneg(atom.parts[1], facts, depth + 1)
-        if k == "abs":
+        if k in ("abs", "ind"):
             return True
         if k in ("sumt", "poly"):
             self.used_rules.add("R5")
@@ -181,6 +201,13 @@ class Prover(object):
             n += 1
             for aid in list(p.atoms()):
                 a = self.A.atoms[aid]
+                if a.kind == "ind":
+                    v = eval_ck(a.parts[1], dict(facts))
+                    if v is not None:
+                        q = psubst_all(p, aid, const(1 if v else 0))
+                        p = q
+                        changed = True
+                        break
                 if a.kind == "ite":
                     v = self.cond_value(a, facts)
                     if v is not None:
@@ -222,6 +249,12 @@ class Prover(object):
                 self.used_rules.add("case-split")
                 return (self.nonneg(p, facts | frozenset([(kt, vt)]), depth + 1)
                         and self.nonneg(p, facts | frozenset([(kf, vf)]), depth + 1))
+        for aid in sorted(p.atoms()):
+            a = A.atoms[aid]
+            if a.kind == "ind" and eval_ck(a.parts[1], dict(facts)) is None:
+                self.used_rules.add("case-split")
+                return (self.nonneg(p, facts | frozenset([(a.parts[1], True)]), depth + 1)
+                        and self.nonneg(p, facts | frozenset([(a.parts[1], False)]), depth + 1))
         # Σ_t: group monomials sharing the same scalar rest and prove the summand point-wise
         g = self.try_sums(p, facts, depth)
         if g is not None:
